@@ -48,3 +48,7 @@ require (
 	github.com/hashicorp/go-multierror v1.1.1 // indirect
 	golang.org/x/time v0.15.0 // indirect
 )
+
+require go.etcd.io/bbolt v1.5.0
+
+require github.com/klauspost/compress v1.19.0 // indirect
